@@ -49,6 +49,7 @@ type Cfg struct {
 	PreWrite       *WritePlan        `json:"preWrite"` // issued the moment serving starts
 	StartedFile    string            `json:"startedFile"`
 	ChatterAfterMs int               `json:"chatterAfterMs"` // print lines to os.Stdout from a goroutine, starting this long after the handshake line
+	EarlyStderrMs  int               `json:"earlyStderrMs"`  // from process start: lines written to the process' stderr every 200 µs for this long (start-up logging)
 	PreTestServe   bool              `json:"preTestServe"`   // serve once in test mode (and stop) before serving for real
 	UnsetEnv       []string          `json:"unsetEnv"`       // emulate an older plugin that does not know these variables
 	TmpDir         string            `json:"tmpDir"`         // private sandbox: becomes this process' TMPDIR (the host's own TMPDIR would otherwise win in the inherited environment)
@@ -129,6 +130,16 @@ func main() {
 		impostor()
 	}
 
+	if cfg.EarlyStderrMs > 0 {
+		realErr := os.Stderr // Serve replaces os.Stderr later: keep writing to the process' own stderr
+		go func() {
+			t0 := time.Now()
+			for i := 0; time.Since(t0) < time.Duration(cfg.EarlyStderrMs)*time.Millisecond; i++ {
+				fmt.Fprintf(realErr, "start-up log line %d\n", i)
+				time.Sleep(200 * time.Microsecond)
+			}
+		}()
+	}
 	var once, chatterOnce sync.Once
 	vp.InstallEnvHook(func(name string, id uint32) {
 		if name == "serve.lineWritten" && cfg.ChatterAfterMs > 0 {
